@@ -42,6 +42,8 @@ import (
 	cmttypes "github.com/cometbft/cometbft/types"
 	cmtversion "github.com/cometbft/cometbft/version"
 
+	icagenesistypes "github.com/cosmos/ibc-go/v11/modules/apps/27-interchain-accounts/genesis/types"
+	icatypes "github.com/cosmos/ibc-go/v11/modules/apps/27-interchain-accounts/types"
 	clienttypes "github.com/cosmos/ibc-go/v11/modules/core/02-client/types"
 	connectiontypes "github.com/cosmos/ibc-go/v11/modules/core/03-connection/types"
 	commitmenttypes "github.com/cosmos/ibc-go/v11/modules/core/23-commitment/types"
@@ -143,6 +145,7 @@ type ChainConfig struct {
 	GovVotingPeriod         time.Duration
 	BlockMaxGas             int64
 	Clock                   *Clock `json:"-"` // shared setup clock (optional)
+	ICAAllow                []string          // interchain-accounts host allow list (nil = default "*")
 }
 
 // Chain is one simulated chain running the real application.
@@ -308,6 +311,14 @@ func NewChain(idx int, cfg ChainConfig, stats *Stats) *Chain {
 			ibcGen.ClientGenesis.Params = clienttypes.NewParams(cfg.AllowedClients...)
 		}
 		gen[ibcexported.ModuleName] = cdc.MustMarshalJSON(&ibcGen)
+	}
+
+	// interchain-accounts host allow list (knob)
+	if cfg.ICAAllow != nil {
+		var ica icagenesistypes.GenesisState
+		cdc.MustUnmarshalJSON(gen[icatypes.ModuleName], &ica)
+		ica.HostGenesisState.Params.AllowMessages = cfg.ICAAllow
+		gen[icatypes.ModuleName] = cdc.MustMarshalJSON(&ica)
 	}
 
 	stateBytes, err := json.Marshal(gen)
